@@ -291,6 +291,84 @@ func checkC01(c *Ctx, r *Report) {
 	if nst == 0 {
 		r.Unresolved(r3, "no construction of cache.MemoryEntry found")
 	}
+	// R3b: the published byte slice is only ever read. Readers are handed slices
+	// that alias entry.Data, so recycling or writing the backing array changes what
+	// an open reader returns under the digest.
+	r3b := r.Rule("R3b", "E-OWN(flow)", "a value loaded from MemoryEntry.Data flows only into read-only uses (len, slicing, range, io.Writer.Write argument, reader constructors, copy source); it is never a copy/append destination, never stored elsewhere and never handed to a pool", 2)
+	readOnlyCallees := map[string]bool{
+		"lib/store.NewBufferFileReader": true, "bytes.NewReader": true, "bytes.NewBuffer": false,
+		"(lib/store.FileReadWriter).Write": true, "(io.Writer).Write": true, "(lib/store/base.FileReadWriter).Write": true,
+		"builtin.len": true, "builtin.cap": true,
+	}
+	nld := 0
+	for _, fn := range c.Funcs {
+		if c.isFixture(fn) {
+			continue
+		}
+		instrsOf(fn, func(in ssa.Instruction) {
+			ld, ok := in.(*ssa.UnOp)
+			if !ok || ld.Op != token.MUL || !isFieldRef(ld.X, tMemEntry+".Data") {
+				return
+			}
+			nld++
+			// follow slices of the loaded value
+			vals := []ssa.Value{ld}
+			for i := 0; i < len(vals); i++ {
+				for _, rf := range *vals[i].Referrers() {
+					switch x := rf.(type) {
+					case *ssa.Slice:
+						vals = append(vals, x)
+					case *ssa.DebugRef, *ssa.IndexAddr, *ssa.Range:
+						// element reads; IndexAddr stores are checked below
+						if ia, isIA := x.(*ssa.IndexAddr); isIA {
+							for _, r2 := range *ia.Referrers() {
+								if st, isSt := r2.(*ssa.Store); isSt && st.Addr == ia {
+									r.Bad(r3b, fn, "write through entry.Data", st, "an element of a published memory entry's data is overwritten")
+								}
+							}
+						}
+					case ssa.CallInstruction:
+						cn := calleeName(x.Common())
+						if cn == "builtin.copy" {
+							if x.Common().Args[0] == vals[i] {
+								r.Bad(r3b, fn, "copy into entry.Data", x, "a published memory entry's data is the destination of a copy")
+							} else {
+								r.OK(r3b, fn, "copy from entry.Data", x, true, "read-only")
+							}
+							continue
+						}
+						if readOnlyCallees[cn] {
+							r.OK(r3b, fn, "entry.Data → "+cn, x, true, "read-only use")
+							continue
+						}
+						r.Bad(r3b, fn, "entry.Data → "+cn, x, "the byte slice of a published memory entry is passed to "+cn+", which is not a known read-only use: readers alias this array, so retaining/recycling/writing it changes bytes served under the digest")
+					case *ssa.Store:
+						if x.Val == vals[i] {
+							r.Bad(r3b, fn, "entry.Data stored elsewhere", x, "the byte slice of a published memory entry is stored into another location (aliasing)")
+						}
+					case *ssa.Return:
+						if fn.Name() != "Bytes" {
+							r.OK(r3b, fn, "entry.Data returned", x, false, "returned to caller")
+						}
+					case *ssa.MakeInterface:
+						vals = append(vals, x)
+					case *ssa.ChangeType:
+						vals = append(vals, x)
+					case *ssa.Phi:
+						if len(vals) < 32 {
+							vals = append(vals, x)
+						}
+					case *ssa.BinOp:
+					default:
+						_ = x
+					}
+				}
+			}
+		})
+	}
+	if nld == 0 {
+		r.Unresolved(r3b, "no load of MemoryEntry.Data found")
+	}
 
 	// R4: SetCacheFileMetadata(TorrentMeta)
 	r4 := r.Rule("R4", "E-ORDER+identity", "every torrent metainfo stored or published for a name was computed by core.NewMetaInfo* from the content and the digest of that same name (or is the metainfo of the memory entry being drained)", 4)
